@@ -436,7 +436,7 @@ def build(unit, outdir, canary=False, pid=None, coarse=(), stub=None, autostub=F
     regions = [c for c in chunks if isinstance(c, Region)]
     errors = []
     stub = dict(stub or {})
-    merge.UNIT_TABLE = merge.merge_tables([merge.ghost_arg_table(lex.tokenize(r.body)) for r in regions if r.kind == "fn"])
+    merge.UNIT_TABLE = merge.merge_tables([merge.ghost_arg_table(lex.tokenize(r.body), raw=True) for r in regions if r.kind == "fn"])
     merge.UNIT_DEFAULTS = {}
     for c in chunks:
         if isinstance(c, str):
